@@ -14,10 +14,12 @@ import (
 
 const (
 	cpuBoundMs   = 5000              // the code claims a 1 s deadline; 5x slack, on CPU time
-	killCPUMs    = 6000              // a running script is killed once it has consumed this much CPU (verdict: over bound)
-	wallKill     = 60 * time.Second  // safety net only
+	killCPUMs    = 5500              // a running script is killed once it has consumed this much CPU (verdict: over bound)
+	wallKill     = 60 * time.Second  // safety net only: no CPU progress of the running script for this long (blocked, not computing)
+	wallCap      = 15 * time.Minute  // absolute cap per script (a machine loaded so heavily makes the run inconclusive)
 	helloTimeout = 60 * time.Second  // child start-up
-	memBombKB    = 1024 * 1024       // a call that drives the child's RSS above 1 GiB is a memory bomb (outside the claim)
+	memBombKB    = 1024 * 1024       // time is not judged for a call during which the child's peak RSS exceeded 1 GiB (memory bomb: outside the claim)
+	rssKillKB    = 6 * 1024 * 1024   // machine protection: a child above 6 GiB RSS is killed (memory bomb: outside the claim)
 	straceBin    = "/usr/bin/strace" // (c2)
 	straceSet    = "trace=openat,open,creat,execve,execveat,socket,connect,bind,unlink,unlinkat,rename,renameat,mkdir,fork,vfork,clone3"
 )
@@ -151,10 +153,10 @@ func runChildOnce(items []item, res []itemResult, base int, opt runOpt) (consume
 	childPid := 0
 	cur, completed := -1, 0
 	var cpuAtStart, lastCPU, lastHWM, hwmAtStart int64
-	var startWall time.Time
+	var startWall, lastProgress time.Time
 	spawned := time.Now()
 	killReason := ""
-	bye := false
+	bye, recycle := false, false
 	tick := time.NewTicker(50 * time.Millisecond)
 	defer tick.Stop()
 loop:
@@ -168,7 +170,7 @@ loop:
 			case ev.Hello != nil:
 				childPid = *ev.Hello
 			case ev.Start != nil:
-				cur, cpuAtStart, startWall, lastCPU = *ev.Start, ev.CPUms, time.Now(), ev.CPUms
+				cur, cpuAtStart, startWall, lastCPU, lastProgress = *ev.Start, ev.CPUms, time.Now(), ev.CPUms, time.Now()
 				if _, hwm, ok := procStat(childPid); ok {
 					hwmAtStart, lastHWM = hwm, hwm
 				}
@@ -180,6 +182,8 @@ loop:
 				completed = ev.Idx + 1
 			case ev.Bye:
 				bye = true
+			case ev.Recycle:
+				recycle = true
 			}
 		case <-tick.C:
 			if killReason != "" {
@@ -194,12 +198,18 @@ loop:
 			}
 			if cur >= 0 {
 				if cpu, hwm, ok := procStat(childPid); ok {
+					if cpu > lastCPU {
+						lastProgress = time.Now()
+					}
 					lastCPU, lastHWM = cpu, hwm
 				}
 				if lastCPU-cpuAtStart > killCPU {
 					killReason = "cpu"
 					killAll()
-				} else if time.Since(startWall) > wallKill {
+				} else if lastHWM > rssKillKB {
+					killReason = "rss"
+					killAll()
+				} else if time.Since(lastProgress) > wallKill || time.Since(startWall) > wallCap {
 					killReason = "wall"
 					killAll()
 				}
@@ -237,16 +247,23 @@ loop:
 			r.Kind = "killed-cpu"
 		case "wall":
 			r.Kind = "killed-wall"
+		case "rss":
+			r.Kind = "killed-rss"
 		default:
 			r.Kind = "death"
 			eb, _ := os.ReadFile(ef.Name())
-			r.Stderr = headTail(dropKlog(string(eb)), 3000, 1500)
+			full := dropKlog(string(eb))
+			r.Site = deathSite(full)
+			r.Stderr = headTail(full, 3000, 1500)
 		}
 		res[cur] = r
 		return cur + 1, trace
 	}
 	if completed >= len(res) && (bye || exitErr == "") {
 		return len(res), trace
+	}
+	if recycle && completed > 0 {
+		return completed, trace
 	}
 	// the child ended outside any script (start-up failure / harness trouble): not a verdict about Lua
 	eb, _ := os.ReadFile(ef.Name())
@@ -274,6 +291,34 @@ func headTail(s string, h, t int) string {
 		return s
 	}
 	return s[:h] + "\n…\n" + s[len(s)-t:]
+}
+
+// deathSite names the frame a fatal-error trace is blamed on (function name only): a rollouts frame among the
+// first frames of the crashing goroutine if there is one, else the first gopher-lua frame.
+func deathSite(stderr string) string {
+	var frames []string
+	for _, l := range strings.Split(stderr, "\n") {
+		if strings.HasPrefix(l, "github.com/yuin/gopher-lua") || strings.HasPrefix(l, "github.com/openkruise/rollouts/") || strings.HasPrefix(l, "encoding/json.") {
+			fn := l
+			if i := strings.LastIndex(fn, "("); i > 0 {
+				fn = fn[:i]
+			}
+			frames = append(frames, fn)
+			if len(frames) >= 16 {
+				break
+			}
+		}
+	}
+	first := "unknown"
+	for _, fn := range frames {
+		if strings.HasPrefix(fn, "github.com/openkruise/rollouts/") {
+			return strings.TrimPrefix(fn, "github.com/openkruise/rollouts/")
+		}
+		if first == "unknown" && strings.HasPrefix(fn, "github.com/yuin/") {
+			first = strings.TrimPrefix(fn, "github.com/yuin/")
+		}
+	}
+	return first
 }
 
 func firstFatal(stderr string) string {
